@@ -109,16 +109,15 @@ def scan (c : Cfg) : List Op → Acc → Option Nat → ScanOut
       let r := scan c buf a' (if slot then takeSlot free else free)
       { r with raised := out.toList ++ r.raised }
 
-/-- The end-of-cycle loop `for watcher, batch := range batches` iterates a Go map: any order.
-`order` is a list of watchers; batches are raised in that order (empty ones — `nil` after a full
-batch — are not in `openB` at all). -/
-def finishOrder (order : List Nat) (openB : List Batch) : List Batch :=
-  order.filterMap (fun w => (lookupB w openB).map (fun b => (w, b)))
+/-- The end-of-cycle loop `for watcher, batch := range batches { processBatch(watcher, batch) }` iterates a Go
+map: the open batches are raised in ANY order (entries set to `nil` after a full batch are not in `openB`,
+and `processBatch` ignores empty batches). A sweep is any permutation of the open-batch table. -/
+def SweepOK (c : Cfg) (buf : List Op) (free : Option Nat) (sweep : List Batch) : Prop :=
+  sweep.Perm (scan c buf { consumed := 0, openB := [] } free).acc.openB
 
-/-- Everything a complete cycle hands to watchers, for the given leftover order. -/
-def cycleBatches (c : Cfg) (buf : List Op) (free : Option Nat) (order : List Nat) : List Batch :=
-  let r := scan c buf { consumed := 0, openB := [] } free
-  r.raised ++ finishOrder order r.acc.openB
+/-- Everything a complete cycle hands to watchers, for the given sweep order. -/
+def cycleBatches (c : Cfg) (buf : List Op) (free : Option Nat) (sweep : List Batch) : List Batch :=
+  (scan c buf { consumed := 0, openB := [] } free).raised ++ sweep
 
 /-- The buffer after a complete cycle. -/
 def cycleBuffer (c : Cfg) (buf : List Op) (free : Option Nat) : List Op :=
